@@ -565,6 +565,17 @@ Ipc::StoreMap::openForUpdating(Update &update, const sfileno fileNoHint)
 
     /* stale anchor is properly locked; we can now use abortUpdating() if needed */
 
+    // Our openForReadingAt() check may have preceded a concurrent deletion or a
+    // concurrent update that has since released the headers lock; both leave
+    // this (now stale) anchor marked. Updating it would create a second fresh
+    // edition sharing (and eventually double-freeing) the same chain suffix.
+    if (update.stale.anchor->waitingToBeFreed) {
+        debugs(54, 5, "cannot open marked entry " << update.stale.fileNo <<
+               " for updating " << path);
+        abortUpdating(update);
+        return false;
+    }
+
     if (!openKeyless(update.fresh)) {
         debugs(54, 5, "cannot open freshchainless entry " << update.stale.fileNo <<
                " for updating " << path);
